@@ -259,13 +259,29 @@ class Type2Tag(Tag):
                 tag_memory[offset] = 0xFE
             tag_memory.synchronize()
 
-            # Write the ndef message tlv length.
+            # Write the ndef message tlv length. The three byte length
+            # field may span two memory pages. The tag must then never
+            # hold a length that is neither zero nor the final value if
+            # the write gets interrupted between the two pages.
             offset = self._ndef_tlv_offset
             if len(data) < 255:
                 tag_memory[offset+1] = len(data)
             else:
+                nlen = bytearray(pack(">H", len(data)))
+                page = [(offset + i) >> 2 for i in (1, 2, 3)]
+                if page[0] != page[1] and page[1] == page[2]:
+                    # The second page is written after the 0xFF marker
+                    # and must read as zero length until then.
+                    tag_memory[offset+2:offset+4] = b"\x00\x00"
+                else:
+                    # Length bytes in a later page get their final value
+                    # while the first length byte is still zero.
+                    for i in (1, 2):
+                        if page[i] != page[0]:
+                            tag_memory[offset+1+i] = nlen[i-1]
+                tag_memory.synchronize()
                 tag_memory[offset+1] = 0xFF
-                tag_memory[offset+2:offset+4] = pack(">H", len(data))
+                tag_memory[offset+2:offset+4] = nlen
             tag_memory.synchronize()
 
     #
